@@ -48,6 +48,8 @@ func cmdVCs(args []string) int {
 	run := fs.Bool("run", true, "discharge")
 	only := fs.String("only", "", "substring filter on VC names")
 	timeout := fs.Int("timeout", 10, "solver timeout (s)")
+	propF := fs.String("prop", "", "only VCs tagged with this property (plus untagged if --untagged)")
+	untagged := fs.Bool("untagged", false, "with --prop: include untagged VCs")
 	fs.Parse(args)
 	P, err := LoadProg(*repo, filepath.Join(verifDir(), "spec"))
 	if err != nil {
@@ -80,6 +82,36 @@ func cmdVCs(args []string) int {
 		}
 		x.lemmaText = (&Check{P: P, assume: map[string]bool{}}).lemmaTexts(x, c.Lemmas)
 		fmt.Printf("== %s: %d VCs, %d paths\n", n, len(x.vcs), x.paths)
+		if *propF != "" {
+			ck := &Check{P: P, Prop: *propF, Tier: "quick", Verif: verifDir()}
+			var jobs []job
+			for _, vc := range x.vcs {
+				if vc.Prop == *propF || (*untagged && vc.Prop == "") {
+					if *only == "" || strings.Contains(vc.Name, *only) {
+						jobs = append(jobs, job{x, vc})
+					}
+				}
+			}
+			t0 := time.Now()
+			ck.discharge(jobs)
+			cnt := map[string]int{}
+			fails := map[string]int{}
+			for _, r := range ck.results {
+				cnt[r.Status]++
+				if r.Status != "unsat" {
+					fails[r.VC.Name+" "+r.Status]++
+					if fails[r.VC.Name+" "+r.Status] <= 2 {
+						fmt.Printf("FAIL %s %s [%s] %s\n", r.VC.Name, r.Status, r.VC.Trace, strings.Join(r.Tried, " "))
+					}
+					bad++
+				}
+			}
+			fmt.Printf("%d jobs %v in %.1fs\n", len(jobs), cnt, time.Since(t0).Seconds())
+			for k, v := range fails {
+				fmt.Printf("  %4d x %s\n", v, k)
+			}
+			continue
+		}
 		for _, vc := range x.vcs {
 			if *only != "" && !strings.Contains(vc.Name, *only) {
 				continue
@@ -241,4 +273,20 @@ func writeJSON(path string, v any) error {
 	}
 	os.MkdirAll(filepath.Dir(path), 0o755)
 	return os.WriteFile(path, append(b, '\n'), 0o644)
+}
+
+func init() {
+	if len(os.Args) > 2 && os.Args[1] == "ssa" {
+		P, err := LoadProg("/repo", filepath.Join(verifDir(), "spec"))
+		if err != nil {
+			fmt.Println(err)
+			os.Exit(2)
+		}
+		if f := P.Funcs[os.Args[2]]; f != nil {
+			f.WriteTo(os.Stdout)
+		} else {
+			fmt.Println("no such function")
+		}
+		os.Exit(0)
+	}
 }
